@@ -2,6 +2,8 @@ import SaModel.Lemmas.C16Run
 import SaModel.Lemmas.C16FromType
 import SaModel.Lemmas.C16Depth
 import SaModel.Lemmas.C16Time
+import SaModel.Lemmas.C16SchemaJson
+import SaModel.Lemmas.C12Batch
 import SaModel.Props.C17
 import SaModel.Props.C14
 import SaModel.Props.C15
@@ -434,7 +436,129 @@ theorem deserializer_access_no_panic (a : Arr) (t : Target) (len : Nat) :
 example : Access.new true 2 [3, 4] = fail "Cannot deserialize from arrays with different lengths" := by decide
 example : Access.bulk 3 = [0, 1, 2] := by decide
 
+open SaModel.Lemmas.C12 (colLens batch)
+
+/-- a whole-batch read through the access layer with a typed target — `Vec<T>::deserialize(Deserializer::from_marrow(
+fields, views)?)`: `Deserializer::new` (count / length checks, the record count), construction of the column readers
+under the root struct reader `batch len cols`, then `T::deserialize` of every record the bulk `SeqAccess` hands out, in
+order, stopping at the first error.  (`Driver/ReadCheck.lean modelRead` is the one-column instance, with
+`readRange _ 0 len` for `mapM` over `Access.bulk len` = `List.range len`, C13.) -/
+def readBatch (t : Target) (cols : ArrFields) : R (List DVal) := do
+  let len ← Access.new true cols.length (colLens cols)
+  new Fixes.all (batch len cols)
+  (Access.bulk len).mapM (fun idx => readAs Fixes.all t (batch len cols) idx)
+
+/-- the same with `deserialize_any` for every record -/
+def readBatchAny (cols : ArrFields) : R (List DVal) := do
+  let len ← Access.new true cols.length (colLens cols)
+  new Fixes.all (batch len cols)
+  (Access.bulk len).mapM (fun idx => readAny Fixes.all (batch len cols) idx)
+
+theorem mapM_no_panic {α β} (f : α → R β) (hf : ∀ a, NoPanic (f a)) : ∀ (l : List α), NoPanic (l.mapM f)
+  | [] => NoPanic.pure _
+  | a :: r => by
+    rw [List.mapM_cons]
+    exact NoPanic.bind (hf a) fun _ => NoPanic.bind (mapM_no_panic f hf r) fun _ => NoPanic.pure _
+
+/-- C16 for whole-batch typed reads: for EVERY list of columns (ARBITRARY views: no validity, length or offset
+hypothesis — C17) and EVERY typed target, reading the whole batch returns the records or an error -/
+theorem readBatch_no_panic (t : Target) (cols : ArrFields) (site : String) : readBatch t cols ≠ panic site := by
+  unfold readBatch
+  exact NoPanic.bind (deserializer_new_no_panic _ _ _) (fun len =>
+    NoPanic.bind (C17.new_no_panic _) fun _ => mapM_no_panic _ (fun idx => C17.readAs_no_panic t _ idx) _) site
+
+theorem readBatchAny_no_panic (cols : ArrFields) (site : String) : readBatchAny cols ≠ panic site := by
+  unfold readBatchAny
+  exact NoPanic.bind (deserializer_new_no_panic _ _ _) (fun len =>
+    NoPanic.bind (C17.new_no_panic _) fun _ => mapM_no_panic _ (fun idx => C17.read_no_panic _ idx) _) site
+
+/-- the list the bulk read produces is the list of `readRange` (what the `read` suite's driver computes) -/
+theorem readBatch_eq_readRange (t : Target) (cols : ArrFields) (len : Nat) :
+    (Access.bulk len).mapM (fun idx => readAs Fixes.all t (batch len cols) idx) =
+      readRange (fun idx => readAs Fixes.all t (batch len cols) idx) 0 len := by
+  rw [SaModel.Props.C13.bulk_eq_items]
+  have key : ∀ (f : Nat → R DVal) (n s : Nat), (List.range' s n).mapM f = readRange f s n := by
+    intro f n
+    induction n with
+    | zero => intro s; rfl
+    | succ n ih =>
+      intro s
+      rw [List.range'_succ, List.mapM_cons, readRange, ih (s + 1)]
+  rw [List.range_eq_range']
+  exact key _ len 0
+
+/-- non-vacuity: a two-column batch (nullable utf8, FixedSizeList(2) of int16; C12's example) read as `Vec<(String?,
+[i16; 2])>`-like records succeeds; with a target that does not fit, and with columns of different lengths, it is an
+error -/
+def batchExample : ArrFields :=
+  .cons ⟨"s", true, []⟩ (.bytes .utf8 (some ⟨[0b101], 0⟩) [0, 1, 1, 3] [97, 98, 99])
+  (.cons ⟨"p", false, []⟩ (.fixedSizeList 3 none 2 ⟨"element", false, []⟩ (.prim .int16 none [1, 2, 3, 4, 5, 6])) .nil)
+
+example : (readBatchAny batchExample).isOk = true := by decide +kernel
+example : (readBatch (.tuple (.cons (.option .string) (.cons (.seq (.int .i16)) .nil))) batchExample).isOk = true := by
+  decide +kernel
+example : (readBatch .bool batchExample).isErr = true := by decide +kernel
+example : (readBatchAny (.cons ⟨"a", false, []⟩ (.null 2) (.cons ⟨"b", false, []⟩ (.null 3) .nil))).isErr = true := by
+  decide +kernel
+
 end Reader
+
+/-! ### schema side: every schema text / JSON value its readers are handed -/
+
+section Schema
+open SaModel.Dsl SaModel.SchemaJson
+
+/-- `Term::from_str` (the data-type mini language of `utils/dsl.rs`, quoted strings with escapes included): every
+text.  Nesting deeper than the model's fuel is an ordinary error; Rust recurses on the machine stack there (not
+expressible, see notes). -/
+theorem termFromStr_no_panic (s : Text) (site : String) : Term.fromStr s ≠ panic site :=
+  Lemmas.C16.ne_panic_of_isPanic (Lemmas.C16.fromStrWith_np false s) site
+
+/-- `build_data_type(data_type, children)`: every text, every list of children -/
+theorem buildDataType_no_panic (dataType : Text) (children : List Field) (site : String) :
+    buildDataType dataType children ≠ panic site :=
+  Lemmas.C16.ne_panic_of_isPanic (Lemmas.C16.buildDataTypeWith_np false dataType children) site
+
+/-- `validate_field`: every field tree (all data types, every metadata map) -/
+theorem validateField_no_panic (f : Field) (site : String) : validateField f ≠ panic site :=
+  Lemmas.C16.ne_panic_of_isPanic (Lemmas.C16.validateField_np f) site
+
+/-- one field object (`CustomField::deserialize` + `into_field` + `validate_field`): EVERY JSON value — wrong kinds,
+missing / duplicate / unknown keys, any `data_type` text, any strategy, any metadata, any nesting of children -/
+theorem parseField_no_panic (v : JVal) (site : String) : parseField v ≠ panic site :=
+  Lemmas.C16.ne_panic_of_isPanic (Lemmas.C16.parseFieldWith_np false v) site
+
+/-- `SerdeArrowSchema::deserialize` (`from_value`, `serde_json::from_str`): every JSON value, both top-level forms -/
+theorem parseSchema_no_panic (v : JVal) (site : String) : parseSchema v ≠ panic site :=
+  Lemmas.C16.ne_panic_of_isPanic (Lemmas.C16.parseSchemaWith_np false v) site
+
+/-- foreign (arrow / marrow) field objects handed to `from_value` -/
+theorem acceptForeign_no_panic (fs : List Field) (site : String) : acceptForeignList fs ≠ panic site :=
+  Lemmas.C16.ne_panic_of_isPanic (Lemmas.C16.acceptForeignList_np fs) site
+
+/-- serialising a schema: the one failure (a type `PrettyFieldDataType` cannot write) is an error -/
+theorem printSchema_no_panic (esc : Char → Bool) (fields : List Field) (site : String) :
+    printSchema esc fields ≠ panic site :=
+  Lemmas.C16.ne_panic_of_isPanic (Lemmas.C16.printSchema_np esc fields) site
+
+/-- a schema its constructors accept can be given to the builder: `from_value` followed by `to_marrow`-style use —
+reading the schema, constructing the builders, pushing any rows, finishing — never unwinds -/
+theorem schema_then_build_no_panic (ext : Ext) (he : ExtNP ext) (v : JVal) (rows : List SVal) (site : String) :
+    (parseSchema v >>= fun fields => toMarrow ext fields rows) ≠ panic site :=
+  Lemmas.C16.ne_panic_of_isPanic
+    (bind_no_panic _ _ (Lemmas.C16.parseSchemaWith_np false v) fun fields => Lemmas.C16.toMarrow_np ext he fields rows) site
+
+/-- non-vacuity: an accepted nested field; texts and values that are refused -/
+example : (parseField (.obj (.cons "name" (.str "a") (.cons "data_type" (.str "List") (.cons "children"
+    (.arr (.cons (.obj (.cons "name" (.str "element") (.cons "data_type" (.str "Timestamp(Second, Some(\"UTC\"))") .nil))) .nil))
+    .nil))))).isOk = true := by decide +kernel
+example : (buildDataType "Decimal128(300, 1)".toList []).isErr = true ∧ (buildDataType "Timestamp(Second, Some(\"a\\q\"))".toList []).isErr = true ∧
+    (buildDataType "((((".toList []).isErr = true ∧ (buildDataType "FixedSizeList(-99999999999)".toList []).isErr = true := by
+  decide +kernel
+example : (parseSchema (.obj (.cons "fields" (.num 3) .nil))).isErr = true ∧ (parseSchema (.str "x")).isErr = true ∧
+    (parseField (.obj (.cons "name" (.str "a") (.cons "name" (.str "b") .nil)))).isErr = true := by decide +kernel
+
+end Schema
 
 /-! ### collected from the codec and helper models (proved with their properties) -/
 
@@ -464,5 +588,43 @@ theorem tensor_fixed_storage_no_panic {ε : Type} (h : SaModel.Ext.FixedShapeTen
     h.tryFrom.isPanic = false := SaModel.Props.C20.fixed_storage_no_panic h
 theorem tensor_variable_storage_no_panic {ε : Type} (h : SaModel.Ext.VariableShapeTensorField ε) :
     h.tryFrom.isPanic = false := SaModel.Props.C20.variable_storage_no_panic h
+
+/-! the remaining extension helpers of C20: constructors and setters, for every argument -/
+
+theorem tensor_dim_names_no_panic (n : Nat) (d : List SaModel.Ext.Str) : (SaModel.Ext.checkDimNames n d).isPanic = false := by
+  unfold SaModel.Ext.checkDimNames; split <;> rfl
+theorem bool8_no_panic {ε : Type} (h : SaModel.Ext.Bool8Field) : (h.tryFrom (ε := ε)).isPanic = false := rfl
+theorem tensor_fixed_new_no_panic {ε : Type} (name : String) (element : ε) (elementName : String) (shape : List Nat) :
+    (SaModel.Ext.FixedShapeTensorField.new name element elementName shape).isPanic = false := by
+  unfold SaModel.Ext.FixedShapeTensorField.new; split <;> rfl
+theorem tensor_variable_new_no_panic {ε : Type} (name : String) (element : ε) (elementName : String) (ndim : Nat) :
+    (SaModel.Ext.VariableShapeTensorField.new name element elementName ndim).isPanic = false := by
+  unfold SaModel.Ext.VariableShapeTensorField.new; split <;> rfl
+
+theorem of_unit_check {α} (r : R Unit) (hr : r.isPanic = false) (k : α) :
+    R.isPanic (match r with | .error e => (.error e : R α) | .ok () => .ok k) = false := by
+  cases r with
+  | ok u => rfl
+  | error e => cases e <;> first | rfl | exact hr
+
+theorem tensor_fixed_setPermutation_no_panic {ε : Type} (h : SaModel.Ext.FixedShapeTensorField ε) (v : List Nat) :
+    (h.setPermutation v).isPanic = false :=
+  of_unit_check _ ((isPanic_false_iff _).2 (fun site => SaModel.Props.C20.perm_no_panic _ _ site)) _
+theorem tensor_fixed_setDimNames_no_panic {ε : Type} (h : SaModel.Ext.FixedShapeTensorField ε) (v : List SaModel.Ext.Str) :
+    (h.setDimNames v).isPanic = false := of_unit_check _ (tensor_dim_names_no_panic _ _) _
+theorem tensor_variable_setPermutation_no_panic {ε : Type} (h : SaModel.Ext.VariableShapeTensorField ε) (v : List Nat) :
+    (h.setPermutation v).isPanic = false :=
+  of_unit_check _ ((isPanic_false_iff _).2 (fun site => SaModel.Props.C20.perm_no_panic _ _ site)) _
+theorem tensor_variable_setDimNames_no_panic {ε : Type} (h : SaModel.Ext.VariableShapeTensorField ε) (v : List SaModel.Ext.Str) :
+    (h.setDimNames v).isPanic = false := of_unit_check _ (tensor_dim_names_no_panic _ _) _
+theorem tensor_variable_setUniformShape_no_panic {ε : Type} (h : SaModel.Ext.VariableShapeTensorField ε)
+    (v : List (Option Nat)) : (h.setUniformShape v).isPanic = false :=
+  of_unit_check _ (by unfold SaModel.Ext.VariableShapeTensorField.checkUniformShape; split <;> rfl) _
+
+/-- non-vacuity: a permutation that is refused, one that is accepted; an index far out of range -/
+example : ((SaModel.Ext.FixedShapeTensorField.mk "t" false () [2, 3] none none).setPermutation [1, 1]).isErr = true ∧
+    ((SaModel.Ext.FixedShapeTensorField.mk "t" false () [2, 3] none none).setPermutation [1, 0]).isOk = true ∧
+    ((SaModel.Ext.FixedShapeTensorField.mk "t" false () [2, 3] none none).setPermutation [0, 18446744073709551615]).isErr = true := by
+  decide
 
 end SaModel.Props.C16
